@@ -404,3 +404,233 @@ theorem imageOf_one_owner (s : S) (roots : Nat → List Nat) (h : MWF s roots) (
     exact imageOf_IndOK s.st _ f hf
 
 end GoNfsd.Model.BlockMap
+
+/-! ### with the file-block indices: what the checker's size clause looks at -/
+namespace GoNfsd.Model.BlockMap
+open GoNfsd.Gen.Consts GoNfsd.Model.Fsck
+
+/-- the (index, pointer) pairs with a non-null pointer -/
+def nzp : List (Nat × Nat) → List (Nat × Nat)
+  | [] => []
+  | x :: r => if x.2 = 0 then nzp r else x :: nzp r
+
+theorem nzp_append (a b : List (Nat × Nat)) : nzp (a ++ b) = nzp a ++ nzp b := by
+  induction a with
+  | nil => rfl
+  | cons x r ih =>
+    by_cases h : x.2 = 0
+    · simp only [List.cons_append, nzp, if_pos h, ih]
+    · simp only [List.cons_append, nzp, if_neg h, ih]
+
+theorem nzp_zeros (l : List (Nat × Nat)) (h : ∀ x ∈ l, x.2 = 0) : nzp l = [] := by
+  induction l with
+  | nil => rfl
+  | cons x r ih =>
+    simp only [nzp, if_pos (h x (List.mem_cons_self ..))]
+    exact ih fun y hy => h y (List.mem_cons_of_mem _ hy)
+
+theorem mem_nzp {l : List (Nat × Nat)} {x : Nat × Nat} (h : x ∈ nzp l) : x ∈ l ∧ x.2 ≠ 0 := by
+  induction l with
+  | nil => cases h
+  | cons y r ih =>
+    by_cases hy : y.2 = 0
+    · rw [nzp, if_pos hy] at h
+      exact ⟨List.mem_cons_of_mem _ (ih h).1, (ih h).2⟩
+    · rw [nzp, if_neg hy] at h
+      rcases List.mem_cons.mp h with e | e
+      · exact ⟨by rw [e]; exact List.mem_cons_self .., by rw [e]; exact hy⟩
+      · exact ⟨List.mem_cons_of_mem _ (ih e).1, (ih e).2⟩
+
+def pairOf (o : Own) : Nat × Nat := (o.minIdx, o.blk)
+
+theorem ownDirectFrom_pairs (l : List Nat) : ∀ i, (ownDirectFrom l i).map pairOf =
+    nzp ((List.range l.length).map fun k => (i + k, l.getD k 0)) := by
+  induction l with
+  | nil => intro i; rfl
+  | cons p ps ih =>
+    intro i
+    have hshift : (List.range (ps.length + 1)).map (fun k => (i + k, (p :: ps).getD k 0)) =
+        (i, p) :: (List.range ps.length).map (fun k => (i + 1 + k, ps.getD k 0)) := by
+      rw [List.range_succ_eq_map, List.map_cons, List.map_map]
+      congr 1
+      apply List.map_congr_left
+      intro k _
+      simp only [Function.comp, List.getD_cons_succ]
+      congr 1; omega
+    simp only [List.length_cons]
+    rw [hshift]
+    by_cases hp : p = 0
+    · simp only [ownDirectFrom, ne_eq, hp, not_true_eq_false, if_false, nzp, if_true]
+      exact ih (i + 1)
+    · simp only [ownDirectFrom, ne_eq, hp, not_false_eq_true, if_true, List.map_cons, nzp, if_false]
+      rw [ih (i + 1)]
+      rfl
+
+end GoNfsd.Model.BlockMap
+
+namespace GoNfsd.Model.BlockMap
+open GoNfsd.Gen.Consts GoNfsd.Model.Fsck
+
+theorem filterMap_pairs (st : Store) (b base : Nat) (r : List Nat) :
+    (r.filterMap fun i => if st b i = 0 then none else some (i, st b i)).map (fun jp => (base + jp.1, jp.2)) =
+      nzp (r.map fun i => (base + i, st b i)) := by
+  induction r with
+  | nil => rfl
+  | cons i r ih =>
+    by_cases h : st b i = 0
+    · simp only [List.filterMap_cons, if_pos h, List.map_cons, nzp, ih, if_true]
+    · simp only [List.filterMap_cons, if_neg h, List.map_cons, nzp, ih, if_false]
+
+theorem nzp_cons_ne {x : Nat × Nat} (r : List (Nat × Nat)) (h : x.2 ≠ 0) : nzp (x :: r) = x :: nzp r := by
+  simp only [nzp, if_neg h]
+
+theorem ownInd_pairs (img : Image) (st : Store) (r base : Nat) (R : List Nat)
+    (h : r ≠ 0 → (indOf img r).map (fun jp => (base + jp.1, jp.2)) = nzp (R.map fun i => (base + i, st r i))) :
+    (ownInd img r base).map pairOf = nzp ((base, r) :: R.map fun i => (base + i, if r = 0 then 0 else st r i)) := by
+  by_cases hr : r = 0
+  · simp only [ownInd, if_pos hr, List.map_nil]
+    symm
+    apply nzp_zeros
+    intro x hx
+    simp only [List.mem_cons, List.mem_map] at hx
+    rcases hx with hx | ⟨_, _, hx⟩
+    · rw [hx]; exact hr
+    · rw [← hx]
+  · have e1 : (ownInd img r base).map pairOf = (base, r) :: (indOf img r).map (fun jp => (base + jp.1, jp.2)) := by
+      simp only [ownInd, if_neg hr, List.map_cons, List.map_map]
+      rfl
+    have e2 : (R.map fun i => (base + i, if r = 0 then 0 else st r i)) = R.map fun i => (base + i, st r i) := by
+      apply List.map_congr_left; intro i _; rw [if_neg hr]
+    rw [e1, h hr, e2, nzp_cons_ne _ (by exact hr)]
+
+end GoNfsd.Model.BlockMap
+
+namespace GoNfsd.Model.BlockMap
+open GoNfsd.Gen.Consts GoNfsd.Model.Fsck
+
+/-- THE CHECKER'S VIEW OF AN INODE IS THE POINTER TREE, with the file-block index of every position -/
+theorem owned_pairs (img : Image) (st : Store) (ino : DInode) (hl : ino.blks.length = NDIRECT + 2)
+    (h : IndOK img st ino.blks) :
+    (owned img ino).map pairOf = nzp (posList.map fun p => (firstBn p, ptr st ino.blks p)) := by
+  unfold owned posList
+  generalize hR : List.range NBLKBLK = R
+  have hRlt : ∀ j ∈ R, j < NBLKBLK := by intro j hj; rw [← hR] at hj; exact List.mem_range.mp hj
+  have hent : ∀ b base, (indEntries st b).map (fun jp => (base + jp.1, jp.2)) = nzp (R.map fun i => (base + i, st b i)) := by
+    intro b base; rw [← hR]; exact filterMap_pairs st b base _
+  simp only [List.map_append, nzp_append]
+  have eA : (ownDirectFrom (ino.blks.take NDIRECT) 0).map pairOf =
+      nzp (((List.range NDIRECT).map Pos.dir).map fun p => (firstBn p, ptr st ino.blks p)) := by
+    rw [ownDirectFrom_pairs, List.map_map]
+    have hlen : (ino.blks.take NDIRECT).length = NDIRECT := by rw [List.length_take, hl]; omega
+    rw [hlen]
+    apply congrArg
+    apply List.map_congr_left
+    intro k hk
+    have hk' : k < NDIRECT := List.mem_range.mp hk
+    have hk2 : k < ino.blks.length := by rw [hl]; omega
+    have hget : (ino.blks.take NDIRECT).getD k 0 = ino.blks.getD k 0 := by
+      simp [List.getD, List.getElem?_take, hk']
+    simp only [Function.comp, firstBn, ptr, ptrR, Nat.zero_add]
+    rw [hget]
+  have eB : (ownInd img (ino.blks.getD INDIRECT 0) NDIRECT).map pairOf =
+      nzp ((Pos.iroot :: R.map Pos.ileaf).map fun p => (firstBn p, ptr st ino.blks p)) := by
+    rw [ownInd_pairs img st _ _ R (fun hne => by rw [h.1 hne]; exact hent _ _)]
+    simp only [List.map_cons, List.map_map]
+    rfl
+  have eC : (ownDind img (ino.blks.getD DINDIRECT 0) (NDIRECT + NBLKBLK)).map pairOf =
+      nzp ((Pos.droot :: R.flatMap fun j => Pos.dmid j :: R.map (Pos.dleaf j)).map fun p => (firstBn p, ptr st ino.blks p)) := by
+    generalize hd : ino.blks.getD DINDIRECT 0 = d
+    have h2 := h.2
+    rw [hd] at h2
+    have pD : ptr st ino.blks Pos.droot = d := by simp only [ptr, ptrR, hd]
+    have pM : ∀ j, ptr st ino.blks (Pos.dmid j) = if d = 0 then 0 else st d j := by
+      intro j; simp only [ptr, ptrR, hd]
+    have pL : ∀ j i, ptr st ino.blks (Pos.dleaf j i) = if d = 0 then 0 else if st d j = 0 then 0 else st (st d j) i := by
+      intro j i; simp only [ptr, ptrR, hd]
+    by_cases hd0 : d = 0
+    · simp only [ownDind, if_pos hd0, List.map_nil]
+      symm
+      apply nzp_zeros
+      intro x hx
+      simp only [List.map_cons, List.mem_cons, List.mem_map, List.mem_flatMap] at hx
+      rcases hx with hx | ⟨q, ⟨j, _, hq⟩, hx⟩
+      · rw [hx]; show ptr st ino.blks Pos.droot = 0; rw [pD]; exact hd0
+      · rw [← hx]
+        show ptr st ino.blks q = 0
+        rcases hq with hq | ⟨i, _, hq⟩
+        · rw [hq, pM, if_pos hd0]
+        · rw [← hq, pL, if_pos hd0]
+    · obtain ⟨hroot, hmid⟩ := h2 hd0
+      have e1 : (ownDind img d (NDIRECT + NBLKBLK)).map pairOf =
+          (NDIRECT + NBLKBLK, d) :: ((indOf img d).flatMap fun jq => ownInd img jq.2 (NDIRECT + NBLKBLK + jq.1 * NBLKBLK)).map pairOf := by
+        simp only [ownDind, if_neg hd0, List.map_cons]
+        rfl
+      have e2 : (firstBn Pos.droot, ptr st ino.blks Pos.droot) = (NDIRECT + NBLKBLK, d) := by rw [pD]; rfl
+      rw [e1, List.map_cons, e2, nzp_cons_ne _ (by exact hd0), hroot]
+      apply congrArg
+      unfold indEntries
+      rw [hR]
+      have key : ∀ (r : List Nat), (∀ j ∈ r, j < NBLKBLK) →
+          ((r.filterMap fun i => if st d i = 0 then none else some (i, st d i)).flatMap
+              fun jq => ownInd img jq.2 (NDIRECT + NBLKBLK + jq.1 * NBLKBLK)).map pairOf =
+            nzp ((r.flatMap fun j => Pos.dmid j :: R.map (Pos.dleaf j)).map fun p => (firstBn p, ptr st ino.blks p)) := by
+        intro r hr
+        induction r with
+        | nil => rfl
+        | cons j r ih =>
+          have ih := ih (fun x hx => hr x (List.mem_cons_of_mem _ hx))
+          have hjlt := hr j (List.mem_cons_self ..)
+          rw [List.flatMap_cons, List.map_append, nzp_append]
+          by_cases hj : st d j = 0
+          · rw [List.filterMap_cons]
+            simp only [if_pos hj]
+            rw [ih]
+            have : nzp ((Pos.dmid j :: R.map (Pos.dleaf j)).map fun p => (firstBn p, ptr st ino.blks p)) = [] := by
+              apply nzp_zeros
+              intro x hx
+              simp only [List.map_cons, List.mem_cons, List.mem_map] at hx
+              rcases hx with hx | ⟨q, ⟨i, _, hq⟩, hx⟩
+              · rw [hx]; show ptr st ino.blks (Pos.dmid j) = 0; rw [pM, if_neg hd0]; exact hj
+              · rw [← hx, ← hq]; show ptr st ino.blks (Pos.dleaf j i) = 0; rw [pL, if_neg hd0, if_pos hj]
+            rw [this, List.nil_append]
+          · rw [List.filterMap_cons]
+            simp only [if_neg hj]
+            rw [List.flatMap_cons, List.map_append, ih]
+            apply congrArg (· ++ _)
+            rw [ownInd_pairs img st _ _ R (fun _ => by rw [hmid j hjlt hj]; exact hent _ _)]
+            rw [List.map_cons, List.map_map]
+            have ebase : NDIRECT + NBLKBLK + j * NBLKBLK = firstBn (Pos.dmid j) := by
+              simp only [firstBn]; rw [Nat.mul_comm]
+            have em : (firstBn (Pos.dmid j), ptr st ino.blks (Pos.dmid j)) = (NDIRECT + NBLKBLK + j * NBLKBLK, st d j) := by
+              rw [pM, if_neg hd0, ebase]
+            rw [em]
+            apply congrArg
+            apply congrArg
+            apply List.map_congr_left
+            intro i _
+            simp only [Function.comp, pL, if_neg hd0, if_neg hj, firstBn]
+            rw [Nat.mul_comm j NBLKBLK]
+      exact key R hRlt
+  rw [eA, eB, eC]
+
+/-- ... hence the checker's size clause for the blocks of a file — no block at or beyond
+    `max(⌈size/4096⌉, ShrinkSize)` — is the model's `EmptyFrom` (the bookkeeping invariant `InoOK`) -/
+theorem owned_below_bound (img : Image) (st : Store) (ino : DInode) (hl : ino.blks.length = NDIRECT + 2)
+    (h : IndOK img st ino.blks) (he : EmptyFrom st ino.blks (Fsck.bound ino)) :
+    (owned img ino).all (fun o => decide (o.minIdx < Fsck.bound ino)) = true := by
+  rw [List.all_eq_true]
+  intro o ho
+  have hm : pairOf o ∈ (owned img ino).map pairOf := List.mem_map.mpr ⟨o, ho, rfl⟩
+  rw [owned_pairs img st ino hl h] at hm
+  obtain ⟨h1, h2⟩ := mem_nzp hm
+  obtain ⟨p, hp, hpe⟩ := List.mem_map.mp h1
+  have hidx : firstBn p = o.minIdx := by have := congrArg Prod.fst hpe; exact this
+  have hblk : ptr st ino.blks p = o.blk := by have := congrArg Prod.snd hpe; exact this
+  apply decide_eq_true
+  apply Classical.byContradiction
+  intro hge
+  have := he p (posList_valid p hp) (by rw [hidx]; omega)
+  rw [hblk] at this
+  exact h2 this
+
+end GoNfsd.Model.BlockMap
